@@ -926,3 +926,40 @@ Example reduction_rule_keepdims_witness :
   shape (fst (reduction_batch_rule rkz (Some [0%Z]) true x 1)) = [3; 1; 2] /\
   teqb (front 0 (fst (reduction_batch_rule rkz (Some [0%Z]) true x 1))) (vmap_spec1 (reduce_axes rkz (Some [0%Z]) true) x 1) = true.
 Proof. vm_compute. split; reflexivity. Qed.
+
+(* ================================================================== primitives with an OUTPUT-axis parameter (one_hot) *)
+(* jax.nn.one_hot(x, C, axis=a) inserts a class axis of extent C at position a of the OUTPUT: out[idx] = k (x[idx without a]) idx[a].
+   The batch rule that is right for every rank / axis / batch dim (fix proposed for jax2onnx/plugins/jax/nn/one_hot.py): move the
+   batch axis to the front, canonicalise a against the PER-EXAMPLE output rank, bind with a + 1, report batch dim 0. *)
+Definition insop {A B} (k : A -> nat -> B) (a C : nat) (x : tensor A) : tensor B :=
+  mkT (insert_at a C (shape x)) (fun idx => k (at_ x (remove_at a idx)) (nth a idx 0)).
+Definition prim_out_axis {A B} (k : A -> nat -> B) (a : Z) (C : nat) (x : tensor A) : tensor B :=
+  insop k (canon (S (rank x)) a) C x.
+Definition out_axis_rule {A B} (k : A -> nat -> B) (a : Z) (C : nat) (x : tensor A) (d : nat) : tensor B * nat :=
+  let x' := front d x in (insop k (S (canon (rank x') a)) C x', 0).
+
+Theorem out_axis_rule_correct {A B} (k : A -> nat -> B) a C (x : tensor A) d :
+  d < rank x ->
+  teq (front (snd (out_axis_rule k a C x d)) (fst (out_axis_rule k a C x d)))
+      (stack0 (nth d (shape x) 0) (fun b => prim_out_axis k a C (slice d x b))).
+Proof.
+  intro Hd. unfold out_axis_rule, prim_out_axis. cbn [fst snd].
+  assert (Hl : length (remove_at d (shape x)) = rank x - 1) by (now apply remove_at_length).
+  assert (Hr : rank (front d x) = S (rank x - 1)) by (unfold rank; simpl; now rewrite Hl).
+  assert (Hrs : forall b, S (rank (slice d x b)) = S (rank x - 1)) by (intro b; unfold rank; simpl; now rewrite Hl).
+  rewrite Hr. unfold teq, front, stack0, insop. cbn [shape at_ slice insert_at nth remove_at]. rewrite Hrs.
+  split; [reflexivity|].
+  intros idx Hi. destruct idx as [|b r]; [inversion Hi|]. cbn [hd tl insert_at remove_at nth]. now rewrite Hrs.
+Qed.
+
+(* the rule of the unchanged tree binds with the user's axis on the batched operand and reports bd (+1 if axis <= bd):
+   wrong e.g. for per-example x : [2], axis = 1, mapped along axis 0 (classes land in front of the per-example axis) *)
+Definition out_axis_rule_old {A B} (k : A -> nat -> B) (a : Z) (C : nat) (x : tensor A) (d : nat) : tensor B * nat :=
+  let ai := canon (S (rank x)) a in (insop k ai C x, if ai <=? d then S d else d).
+Example out_axis_rule_old_refuted :
+  let x := of_flat [3; 2] [0; 1; 2; 1; 0; 2]%Z in
+  let k := fun (v : Z) (c : nat) => if Z.eqb v (Z.of_nat c) then 1%Z else 0%Z in
+  shape (front (snd (out_axis_rule_old k 1%Z 3 x 0)) (fst (out_axis_rule_old k 1%Z 3 x 0))) = [3; 3; 2] /\
+  shape (stack0 3 (fun b => prim_out_axis k 1%Z 3 (slice 0 x b))) = [3; 2; 3] /\
+  teqb (front (snd (out_axis_rule k 1%Z 3 x 0)) (fst (out_axis_rule k 1%Z 3 x 0))) (stack0 3 (fun b => prim_out_axis k 1%Z 3 (slice 0 x b))) = true.
+Proof. vm_compute. repeat split; reflexivity. Qed.
